@@ -75,7 +75,10 @@ Faults(sys) == {[kind |-> NoneS, name |-> NoneS]}
     \cup {[kind |-> "constNoInit", name |-> sys.classes[i].name] : i \in {k \in DOMAIN sys.classes : sys.classes[k].role = "const"}}
     \* (a second equation for a variable, or an initial value on a computed variable, is not a fault with a defined ground truth:
     \*  the analyser may legitimately read any initialised variable of the system as an unknown with an initial guess)
-Faulty(sys) == "fault" \in DOMAIN sys /\ sys.fault.kind # NoneS
+\* "diffOfSum" is not a fault: the ODE of the named state is written d(x + 0)/dt = ... (the derivative of an expression), which
+\* means the same as dx/dt = ...
+Faulty(sys) == "fault" \in DOMAIN sys /\ sys.fault.kind \notin {NoneS, "diffOfSum"}
+DiffOfSum(sys) == "fault" \in DOMAIN sys /\ sys.fault.kind = "diffOfSum"
 ExpectedType(sys) == IF sys.nla # NoneS THEN (IF HasStates(sys) THEN "dae" ELSE "nla") ELSE IF HasStates(sys) THEN "ode" ELSE "algebraic"
 VarType(c) == CASE c.role = "const" -> "constant" [] c.role = "cc" -> "computed_constant" [] c.role = "state" -> "state" [] c.role \in {"alg", "nla"} -> "algebraic"
 EqTypes(c) == CASE c.role = "cc" -> {"variable_based_constant", "true_constant"} [] c.role = "state" -> {"ode"} [] c.role = "alg" -> {"algebraic"} [] c.role = "nla" -> {"nla"} [] OTHER -> {}
